@@ -269,26 +269,52 @@ func runC03_12(c *core.Ctx) {
 	}
 	c.Check(setUnderWakeTest, f.Name, "wake-up event sets the chores flag", f.Decl.Pos(), "the eventfd/EVFILT_USER/pipe event leads to the drain",
 		"the wake-up descriptor's event no longer sets "+flag.Name()+": Trigger wakes the poller but the queued tasks are not executed")
-	// cleared at the top of the guarded block, before the first dequeue
-	cleared := false
-	if len(guardIf.Body.List) > 0 {
-		for _, st := range guardIf.Body.List {
-			if as, ok := st.(*ast.AssignStmt); ok && len(as.Lhs) == 1 && flow.ObjOf(f.Info, as.Lhs[0]) == flag {
-				if cv := flow.ConstOf(f.Info, as.Rhs[0]); cv != nil && !constant.BoolVal(cv) {
-					cleared = true
+	// one drain per wake-up: once the test of the flag has been taken, the flag is set to false again before the
+	// test is reached the next time (at the top of the guarded block, or at the top of the next round) – decided
+	// on paths: arriving at the test with the "taken and not cleared since" state is the violation
+	cleared := true
+	{
+		const (
+			sFresh = iota
+			sTaken
+		)
+		isFlag := func(e ast.Expr) bool { return flow.ObjOf(f.Info, e) == types.Object(flag) }
+		au := &flow.Auto{Start: sFresh}
+		au.Node = func(b *flow.Block, i int, n ast.Node, st int) int {
+			if as, ok := n.(*ast.AssignStmt); ok {
+				for k, l := range as.Lhs {
+					if isFlag(l) && k < len(as.Rhs) {
+						return sFresh // cleared, or set anew by the next wake-up
+					}
 				}
-				break
 			}
-			has := false
-			for _, call := range callsIn(st, false) {
-				if a.qCall(f, call, a.dequeue) != nil {
-					has = true
+			if ds, ok := n.(*ast.DeclStmt); ok {
+				if gd, ok := ds.Decl.(*ast.GenDecl); ok {
+					for _, sp := range gd.Specs {
+						if vs, ok := sp.(*ast.ValueSpec); ok {
+							for _, nm := range vs.Names {
+								if f.Info.Defs[nm] == types.Object(flag) {
+									return sFresh
+								}
+							}
+						}
+					}
 				}
 			}
-			if has {
-				break
-			}
+			return st
 		}
+		au.Edge = func(e *flow.Edge, st int) int {
+			if e.Cond != nil && e.Tag == nil && isFlag(e.Cond) {
+				if st == sTaken {
+					cleared = false
+				}
+				if e.Sense {
+					return sTaken
+				}
+			}
+			return st
+		}
+		f.Graph().Run(au)
 	}
 	c.Check(cleared, f.Name, "chores flag cleared before draining", guardIf.Pos(), "one drain per wake-up", "the chores flag is not cleared before the drain: the loop would drain (and reset wakeupCall) on every iteration, or never again")
 }
